@@ -65,6 +65,8 @@ class Model:
                 ev = [st[1], argv0, a1, a2, " ".join(a)]
             elif form == "B":      # a single-quoted word (holding parameter syntax) before the parameters
                 ev = [st[1], "lit $1 ${2}", a1, "x" + a2 + "y", argv0]
+            elif form == "D":      # braces and parentheses that are text, directly around a parameter
+                ev = [st[1], "{" + a1 + "}", "(" + a2 + ")", a1 + "}", "{" + a2]
             else:                  # C: parameters inside longer double-quoted text, quoted literal between them
                 ev = [st[1], "a " + a1 + " b", "$@", a2 + ":" + a1, " ".join(a)]
             self.events.append(("vp_argv", ev))
@@ -171,6 +173,8 @@ def render(stmts, indent=""):
                 out.append(indent + 'vp_argv %s "$0" "$1" "${2}" "$@"' % st[1])
             elif form == "B":
                 out.append(indent + "vp_argv %s 'lit $1 ${2}' \"$1\" \"x${2}y\" \"$0\"" % st[1])
+            elif form == "D":
+                out.append(indent + 'vp_argv %s "{$1}" "($2)" "${1}}" "{${2}"' % st[1])
             else:
                 out.append(indent + "vp_argv %s \"a ${1} b\" '$@' \"$2:$1\" \"$@\"" % st[1])
         elif k == "status":
@@ -243,7 +247,7 @@ class G:
     def simple(self):
         r = self.rng.random()
         if r < 0.35:
-            return ("probe", self.tag("P"), self.rng.choice(["A", "A", "B", "C"]))
+            return ("probe", self.tag("P"), self.rng.choice(["A", "A", "B", "C", "D"]))
         if r < 0.70:
             return ("status", self.rng.choice([0, 0, 1, 2, 7]), self.tag("M"))
         return ("sprobe", self.tag("S"))
